@@ -1,8 +1,8 @@
 (* Model/Driver.v -- the line protocol: one operation per line in, one
    canonical line out.  Written in Gallina so that the extracted binary and
    vm_compute inside coqc evaluate exactly the same function (run_line). *)
-From Coq Require Import ZArith QArith List Bool String Ascii.
-From Iso Require Import Spec.Cal Spec.Instant Spec.ZoneText Spec.Months Model.Num Model.Helpers Model.Duration Model.TimePoint Model.LocalZone.
+From Coq Require Import ZArith QArith Qround List Bool String Ascii.
+From Iso Require Import Spec.Cal Spec.Instant Spec.ZoneText Spec.Months Spec.NextMatch Model.Num Model.Helpers Model.Duration Model.TimePoint Model.LocalZone Model.Recurrence Model.Truncated.
 Import ListNotations.
 Open Scope string_scope.
 
@@ -109,6 +109,55 @@ Definition pair_out (md : mode) (a b : tp) : string :=
 Definition rOperand : rd (tp * dur * zone * string) :=
   p <- rTp ;; d <- rDur ;; z <- rZone ;; k <- tok ;; ret (p, d, z, k).
 
+(* ---- recurrences ---- *)
+Definition rOpt {A} (r : rd A) : rd (option A) :=
+  fun ts => match ts with
+            | t :: rest => if String.eqb t "-" then Some (None, rest)
+                           else match r ts with Some (a, rest') => Some (Some a, rest') | None => None end
+            | [] => None
+            end.
+Definition rRecArgs : rd (option Z * option tp * option dur * option tp) :=
+  n <- rOpt rZ ;; s <- rOpt rTp ;; d <- rOpt rDur ;; e <- rOpt rTp ;; ret (n, s, d, e).
+Definition mk_rec md (a : option Z * option tp * option dur * option tp) : res recur :=
+  let '(n, s, d, e) := a in rec_make md n s d e.
+Definition sh_o {A} (f : A -> string) (o : option A) : string :=
+  match o with Some a => f a | None => "-" end.
+Definition sh_rec (md : mode) (r : recur) : string :=
+  String.concat " ; "
+    ([sh_o show_Z (r_reps r); sh_o sh_tp (r_start r); sh_o sh_dur (r_dur r); sh_o sh_tp (r_end r); show_Z (r_fmt r)]
+     ++ map sh_tp (iter_take md r 12)).
+Definition sh_res {A} (f : A -> string) (x : res A) : string :=
+  match x with Ok a => f a | Err => "ERR" end.
+Definition sh_oo (x : option (option tp)) : string :=
+  match x with None => "ERR" | Some None => "None" | Some (Some p) => sh_tp p end.
+Definition sh_ob (x : option bool) : string :=
+  match x with None => "ERR" | Some b => sh_bool b end.
+Definition FUEL : nat := 3000.
+
+(* ---- truncated points ---- *)
+Definition rTrunc : rd trunc :=
+  h <- rOpt rQ ;; m <- rOpt rQ ;; s <- rOpt rQ ;;
+  dow <- rOpt rZ ;; dom <- rOpt rZ ;; doy <- rOpt rZ ;; wk <- rOpt rZ ;;
+  zh <- rOpt rZ ;; zm <- rOpt rZ ;;
+  ret (mkTrunc h m s dow dom doy wk
+         (match zh, zm with Some a, Some b => Some (mkZone a b) | _, _ => None end)).
+Definition sh_tres (r : tres) : string :=
+  match r with TOk p => sh_tp p | THang => "HANG" | TErr => "ERR" end.
+(* (local day number, local second of day) of p read in zone z -- Spec level *)
+Definition local_ds (md : mode) (p : tp) (z : zone) : Z * Q :=
+  let x := (instant md p + qz (zone_secs z))%Q in
+  let n := Qfloor (x / qz 86400) in (n, Qred (x - qz (86400 * n))).
+Definition qfl (o : option Q) : option Z := match o with Some x => Some (Qfloor x) | None => None end.
+Definition trunc_expect (md : mode) (t : trunc) (p : tp) : string :=
+  let z := match t_zone t with Some z => z | None => tzone p end in
+  let '(n0, sod0) := local_ds md p z in
+  if negb (qis_int sod0) then "NONINT"
+  else match next_match md (mkDay (t_dow t) (t_dom t) (t_doy t) (t_week t))
+                        (mkTod (qfl (t_hour t)) (qfl (t_min t)) (qfl (t_sec t))) n0 (Qfloor sod0) 3000 with
+       | Some (n, x) => unwords [show_Z n; show_Z x]
+       | None => "NOMATCH"
+       end.
+
 (* ---- operations ---- *)
 Definition op_table : list (string * rd string) :=
   [ ("leap", y <- rZ ;; ret (sh_bool (get_is_leap_year y)));
@@ -171,6 +220,41 @@ Definition op_table : list (string * rd string) :=
        ret (sh_opt sh_tp (Pos.iter (fun o => match o with Some x => add_months md x (if (0 <? n)%Z then 1 else (-1))%Z | None => None end)
                                    (Some p) (Z.to_pos (Z.abs n)))));
     ("addmonths", md <- rMode ;; p <- rTp ;; n <- rZ ;; ret (sh_opt sh_tp (add_months md p n)));
+    (* recurrences *)
+    ("rmake", md <- rMode ;; a <- rRecArgs ;; ret (sh_res (sh_rec md) (mk_rec md a)));
+    ("rquery", md <- rMode ;; a <- rRecArgs ;; B <- rOperand ;; i <- rZ ;;
+       ret (let '(pb, db, zb, kb) := B in
+            match mk_rec md a, respell md pb db zb kb with
+            | Ok r, Some t => String.concat " ; "
+                [sh_tp t; sh_ob (get_is_valid md r t FUEL);
+                 (match r_start r with Some _ => sh_oo (get_first_after md r t FUEL) | None => "NOSTART" end);
+                 sh_o sh_tp (get_next md r (Some t)); sh_o sh_tp (get_prev md r (Some t));
+                 sh_o sh_tp (rec_getitem md r i)]
+            | _, _ => "ERR"
+            end));
+    ("radd", md <- rMode ;; a <- rRecArgs ;; d <- rDur ;;
+       ret (match mk_rec md a with
+            | Err => "ERR"
+            | Ok r =>
+              match rec_add md r d with
+              | Err => "ERR"
+              | Ok r1 =>
+                String.concat " ; " [sh_rec md r1;
+                  (match rec_sub md r1 d with Ok r2 => "back " ++ sh_bool (rec_eqb md r2 r) | Err => "back ERR" end)]
+              end
+            end));
+    ("req", md <- rMode ;; a <- rRecArgs ;; b <- rRecArgs ;;
+       ret (match mk_rec md a, mk_rec md b with
+            | Ok r1, Ok r2 => sh_bool (rec_eqb md r1 r2)
+            | _, _ => "ERR" end));
+    (* truncated + full *)
+    ("tadd", md <- rMode ;; t <- rTrunc ;; p <- rTp ;;
+       ret (match tp_add_trunc md t p with
+            | TOk r => unwords [sh_tp r; ";"; sh_tres (tp_add_trunc md t r)]
+            | x => sh_tres x end));
+    ("s_truncexpect", md <- rMode ;; t <- rTrunc ;; p <- rTp ;; ret (trunc_expect md t p));
+    ("s_localds", md <- rMode ;; p <- rTp ;; z <- rZone ;;
+       ret (let '(n, x) := local_ds md p z in unwords [show_Z n; show_Q x]));
     (* durations *)
     ("dadd", a <- rDur ;; b <- rDur ;; ret (sh_dur (dur_add a b)));
     ("dsub", a <- rDur ;; b <- rDur ;; ret (sh_dur (dur_sub a b)));
